@@ -1,6 +1,21 @@
 use crate::*;
 
 
+/// Whether a window starting at `start` with the given size
+/// ends after `position`; a window that reaches beyond the
+/// machine word ends after every position.
+fn ends_after(
+    start: usize,
+    size: usize,
+    position: usize)
+    -> bool
+{
+    start
+        .checked_add(size)
+        .map_or(true, |end| end > position)
+}
+
+
 pub fn check_bank_overlap(
     report: &mut diagn::Report,
     decls: &asm::ItemDecls,
@@ -40,13 +55,14 @@ pub fn check_bank_overlap(
                         true,
 
                     (Some(size1), None) =>
-                        outp1 + size1 > outp2,
+                        ends_after(outp1, size1, outp2),
 
                     (None, Some(size2)) =>
-                        outp2 + size2 > outp1,
+                        ends_after(outp2, size2, outp1),
 
                     (Some(size1), Some(size2)) =>
-                        outp1 + size1 > outp2 && outp2 + size2 > outp1,
+                        ends_after(outp1, size1, outp2) &&
+                        ends_after(outp2, size2, outp1),
                 }
             };
 
